@@ -3,3 +3,7 @@ import FpgoVerif.Props.C02
 #print axioms FpgoVerif.C02.C02_table_methods
 #print axioms FpgoVerif.C02.C02_table_int
 #print axioms FpgoVerif.C02.C02_int_to_int
+#print axioms FpgoVerif.C02.C02_table_float_to_int
+#print axioms FpgoVerif.C02.C02_float_to_int
+#print axioms FpgoVerif.C02.C02_float64_bits_to_int
+#print axioms FpgoVerif.C02.C02_float32_bits_to_int
